@@ -23,7 +23,9 @@ Modes      == {"boot", "signer", "uihb", "unknown", "other"}
 \*           inside or at either end)
 \*   hi8     non-ASCII text whose UTF-8 encoding is exactly 8 bytes
 \*   hiwide  8 characters, more than 8 bytes
-PinClasses == {"ok", "digits", "len7", "len9", "ascii", "hi8", "hiwide"}
+\*   noise   a PIN wrapped in what terminals / pipes add: trailing CR, LF, CRLF, blank, tab, NUL,
+\*           leading blank, BOM / zero-width characters in front (around compliant and other PINs)
+PinClasses == {"ok", "digits", "len7", "len9", "ascii", "hi8", "hiwide", "noise"}
 
 \* one concrete representative per class (the predicates work on bytes)
 PinOf(c) == IF c = "digits" THEN <<49, 50, 51, 52, 53, 54, 55, 56>>             \* 12345678
@@ -31,6 +33,7 @@ PinOf(c) == IF c = "digits" THEN <<49, 50, 51, 52, 53, 54, 55, 56>>             
             ELSE IF c = "len9"   THEN <<97, 98, 99, 100, 49, 50, 51, 52, 53>>   \* abcd12345
             ELSE IF c = "ascii"  THEN <<97, 98, 99, 33, 49, 50, 51, 52>>        \* abc!1234
             ELSE IF c = "hi8"    THEN <<90, 195, 188, 114, 105, 99, 104, 49>>   \* Zu"rich1 (UTF-8)
+            ELSE IF c = "noise"  THEN <<97, 98, 99, 100, 49, 50, 51, 52, 13>>  \* abcd1234 CR
             ELSE IF c = "hiwide" THEN <<97, 98, 99, 100, 101, 102, 103, 195, 169>>  \* abcdefge'
             ELSE <<97, 98, 99, 100, 49, 50, 51, 52>>       \* ok (and "?": never looked at): abcd1234
 UPin    == <<49, 50, 51, 52, 53, 54, 55, 97>>          \* changepin's current PIN: 1234567a
